@@ -260,7 +260,10 @@ func lookupHostFn(cfg *config.Config, notFound gkm.Counter) func(string) *route.
 
 // Returns a matcher function compatible with tcpproxy Matcher from github.com/inetaf/tcpproxy
 func lookupHostMatcher(cfg *config.Config) func(context.Context, string) bool {
-	pick := route.Picker[cfg.Proxy.Strategy]
+	// the matcher only asks what kind of route the host has and must not take
+	// part in load balancing: with the configured picker every connection moved
+	// the round-robin position twice, once here and once when it was routed
+	pick := func(r *route.Route) *route.Target { return r.Targets[0] }
 	return func(ctx context.Context, host string) bool {
 		t := route.GetTable().LookupHost(host, pick)
 		if t == nil {
